@@ -965,7 +965,7 @@ def gen_sites(src, out):
     out.defn("tsne_sqdist_idx", ["n", "dd", "dims"], E(m.group(1), {"n": "n", "d": "dd", "D": "dims"}, what="sqdist idx"), "`X[%s]`, n < N, d < D" % m.group(1))
     body = src.function_body(ft, r"void computeGaussianPerplexity\(ScalarType\* X, int N, int D, int\*\* _row_P, int\*\* _col_P, ScalarType\*\* _val_P, ScalarType perplexity, int K\)", "computeGaussianPerplexity (sparse)")
     m = re.search(r"tree->search\(obj_X\[n\], ([^,]+), &indices, &distances\);", body)
-    m2 = re.search(r"for \(int (\w+) = 0; \1 < K; \1\+\+\) cur_P\[\1\] = exp\(-beta \* distances\[([^\]]+)\]\);", body)
+    m2 = re.search(r"for \(int (\w+) = 0; \1 < K; \1\+\+\) cur_P\[\1\] = exp\(-beta \* \(?distances\[([^\]]+)\](?: - distances\[1\]\))?\);", body)
     m3 = re.search(r"ScalarType\* cur_P = \(ScalarType\*\)malloc\(\(([^)]+)\) \* sizeof\(ScalarType\)\);", body)
     m4 = re.search(r"col_P\[row_P\[n\] \+ (\w+)\] = indices\[([^\]]+)\]\.index\(\);", body)
     m5 = re.search(r"row_P\[n \+ 1\] = row_P\[n\] \+ ([^;]+);", body)
